@@ -84,7 +84,7 @@ Inductive vn :=
 | VFill (paint : list vn)
 | VStroke (width miter : xq) (dash : option (list xq)) (paint : list vn)
 | VColor
-| VLinear (ts coords stops : list xq)
+| VLinear (ts coords stops : list xq)                         (* coords: x1 y1 x2 y2 (carried, not part of the property) *)
 | VRadial (ts coords : list xq) (r : xq) (stops : list xq)
 | VPattern (ts : list xq) (rect : xrect) (root : list vn)
 | VImage (abs_ts : list xq) (sub : list vn)                    (* sub: nested tree *)
@@ -113,10 +113,10 @@ Fixpoint why (v : vn) : list N :=
   | VStroke w m d paint => chk (valid_width w) 3 ++ chk (valid_miter m) 4 ++ chk (valid_dash d) 5 ++ whys paint
   | VColor => []
   | VLinear ts coords stops =>
-      chk (valid_ts ts) 1 ++ chk (all_finite coords) 14 ++ chk (valid_stops_count stops) 6
+      chk (valid_ts ts) 1 ++ chk (valid_stops_count stops) 6
       ++ chk (valid_stops_range stops) 7 ++ chk (sorted_xq stops) 8
   | VRadial ts coords r stops =>
-      chk (valid_ts ts) 1 ++ chk (all_finite coords) 14 ++ chk (valid_radius r) 9 ++ chk (valid_stops_count stops) 6
+      chk (valid_ts ts) 1 ++ chk (valid_radius r) 9 ++ chk (valid_stops_count stops) 6
       ++ chk (valid_stops_range stops) 7 ++ chk (sorted_xq stops) 8
   | VPattern ts rect root => chk (valid_ts ts) 1 ++ chk (valid_region rect) 2 ++ whys root
   | VImage abs_ts sub => chk (valid_ts abs_ts) 1 ++ whys sub
